@@ -22,6 +22,19 @@ def finite_next_blocks(body):
                 continue
             if any(m in recv for m in FINITE_ITER_MARKERS):
                 out.append(c.bb)
+        elif c.fn == NEXT and not c.res and body.blocks[c.bb].get("inl"):
+            # `for x in names` inside an inlined generic helper (`names: impl Iterator`): the receiver type is a type parameter; the
+            # iterator VALUE is what the caller built — finite when its provenance is made of collection iterators and adaptors only
+            try:
+                from .flow import arg_origins
+                sl = arg_origins(c, 0)
+                made = [x.name or "" for x in sl.calls]
+                finite_src = any(n.rsplit("::", 1)[-1] in ("iter", "iter_mut", "into_iter", "keys", "values", "drain", "chars", "bytes", "lines", "split") for n in made)
+                endless = any(k in n for n in made for k in ("repeat", "cycle", "RangeFrom", "incoming", "successors", "from_fn", "repeat_with"))
+                if finite_src and not endless:
+                    out.append(c.bb)
+            except Exception:
+                pass
     return out
 
 
